@@ -24,9 +24,67 @@ def rerun_findings(ctx):
                 still = True
                 continue
             d = lib.attempt(r[1].decode, w['type'], e[1])
-            still = still or d[0] != 'ok' or d[1] != eval(w.get('expect', w['value']))
+            if w.get('repr'):
+                still = still or d[0] != 'ok' or repr(d[1]) != eval(w['expect'])
+            else:
+                still = still or d[0] != 'ok' or d[1] != eval(w.get('expect', w['value']))
         if still:
             ctx.known_finding(f['id'], f['what'])
+
+
+REAL_TEXT = '''M DEFINITIONS AUTOMATIC TAGS ::= BEGIN
+R ::= REAL
+S ::= SEQUENCE { a BOOLEAN, r REAL, l SEQUENCE OF REAL, o REAL OPTIONAL }
+END
+'''
+
+
+def real_values(rng, n_random):
+    import math
+    import struct
+    vals = [0.0, float('inf'), float('-inf'), 1.0, -1.0, 0.5, 0.1, 1e300, -1e300, 5e-324, -5e-324,
+            1.7976931348623157e308, 2.2250738585072014e-308, 1e-23, 9.5e-24, 1e22, 123456789.125]
+    # every binary exponent the one- and two-octet exponent forms distinguish, with 1-, 2- and 53-bit mantissas
+    for e in list(range(-1074, -1060)) + list(range(-300, -100, 7)) + list(range(-140, -115)) + list(range(-20, 20)) + \
+            list(range(115, 140)) + list(range(900, 1024, 9)) + [1022, 1023]:
+        for m in (1.0, 1.5, 1.9999999999999998):
+            try:
+                x = math.ldexp(m, e)
+            except OverflowError:
+                continue
+            if x != 0.0 and not math.isinf(x):
+                vals += [x, -x]
+    for _ in range(n_random):
+        x = struct.unpack('>d', struct.pack('>Q', rng.getrandbits(64)))[0]
+        if not math.isnan(x):
+            vals.append(x)
+    return vals
+
+
+def pt_real(ctx, n_random):
+    """REAL is outside the modelled universe: the round trip is executed on /repo, compared by float.hex()."""
+    import math
+    vals = real_values(ctx.rng, n_random)
+    for codec in X.BINARY:
+        spec = lib.compile_string(REAL_TEXT, codec)
+        for i, x in enumerate(vals):
+            for tn, v in (('R', x), ('S', {'a': True, 'r': x, 'l': [x, 1.0], 'o': (-x if x != 0.0 else 2.5)})) if i % 7 == 0 else (('R', x),):
+                ctx.case(('real', codec, tn, math.frexp(x)[1] if math.isfinite(x) else str(x)), None)
+                ctx.count('pt-real:%s' % codec)
+                e = lib.attempt(spec.encode, tn, v)
+                d = lib.attempt(spec.decode, tn, e[1]) if e[0] == 'ok' else e
+                def hx(y):
+                    return y.hex() if isinstance(y, float) else repr(y)
+                same = d[0] == 'ok' and (hx(d[1]) == hx(v) if tn == 'R' else
+                                         isinstance(d[1], dict) and hx(d[1].get('r')) == hx(x) and
+                                         [hx(z) for z in d[1].get('l', [])] == [hx(x), hx(1.0)] and hx(d[1].get('o')) == hx(-x if x != 0.0 else 2.5))
+                if same:
+                    e2 = lib.attempt(spec.encode, tn, d[1])
+                    same = e2[0] == 'ok' and (codec == 'ber' or e2[1] == e[1])
+                if not same:
+                    ctx.violation('%s: REAL %s (%s) does not round-trip: %s' % (codec, x.hex(), tn, repr(d[1:])[:120]),
+                                  dict(spec=REAL_TEXT, codec=codec, type=tn, value=repr(v), kind='real-roundtrip'))
+                    break
 
 
 def run(ctx):
@@ -69,6 +127,7 @@ def run(ctx):
                 if X.scope_ok(codec, mods, c):
                     X.pt_roundtrip(ctx, codec, c)
                     ctx.case(('pt-big', codec, G.shape(c.rt, c.t), repr(c.value)[:20]), None)
+    pt_real(ctx, 150 if ctx.quick else 5000)
     rerun_findings(ctx)
     if not ok:
         common.proof_broken(ctx)
